@@ -54,6 +54,7 @@ func genStore(repo, out string) {
 	}
 
 	storeBeforeMemory := true
+	preparedBeforeStore := true
 	lockDiscipline := true
 
 	for _, m := range []string{"Create", "Update", "Destroy"} {
@@ -133,6 +134,14 @@ func genStore(repo, out string) {
 					}
 				case strings.HasPrefix(s, "collection.publish("):
 					order = append(order, "pub")
+				case strings.Contains(s, "Copy.Metadata().Set"):
+					// the copy is prepared (version, times, owner) before it is handed to the backing store: what is
+					// persisted is what goes to memory
+					for _, o := range order {
+						if o == "store" {
+							preparedBeforeStore = false
+						}
+					}
 				}
 			}
 
@@ -151,6 +160,8 @@ func genStore(repo, out string) {
 
 	l.line("/-- backing-store write precedes the in-memory write and the publish, and its error aborts the op -/")
 	l.line("def storeBeforeMemory : Bool := %s", leanBool(storeBeforeMemory))
+	l.line("/-- Create/Update: every `Metadata().Set…` on the copy precedes the backing-store Put (the persisted record is the stored one) -/")
+	l.line("def preparedBeforeStore : Bool := %s", leanBool(preparedBeforeStore))
 	l.line("/-- Create/Update/Destroy run entirely under `mu.Lock(); defer mu.Unlock()` -/")
 	l.line("def lockDiscipline : Bool := %s", leanBool(lockDiscipline))
 
